@@ -20,3 +20,131 @@ def make_field_resolver(oracle, log, out_names=False):
         return raw
 
     return resolve
+
+
+# ------------------------------------------------------------------------------------------
+# async plan: which results are awaitables / async iterators (decided per response path)
+
+
+class AsyncPlan:
+    def __init__(self, seed, field=0, item=0, iterator=0, typ=0):
+        self.seed = seed
+        self.d = {"field": field, "item": item, "iter": iterator, "type": typ}
+
+    def is_async(self, kind, path):
+        from vkit.ref.execute import H
+
+        return self.d[kind] > 0 and H(self.seed, kind, path) % 256 < self.d[kind]
+
+
+def hide_typename(v):
+    """Records for the is_type_of mode: the runtime type is not visible to the default type resolver."""
+    if isinstance(v, dict) and "__typename" in v:
+        return {("__tn" if k == "__typename" else k): x for k, x in v.items()}
+    if isinstance(v, list):
+        return [hide_typename(x) for x in v]
+    return v
+
+
+def make_async_resolvers(oracle, sched, plan, events, log, out_names=False, sources=None,
+                         typing="resolver"):
+    """(field_resolver, type_resolver) whose awaitables are gates of the scheduler."""
+    import asyncio
+
+    sources = sources if sources is not None else []
+    hide = hide_typename if typing == "is_type_of" else (lambda v: v)
+
+    def pstr(path):
+        return "/".join(str(p) for p in path)
+
+    def wrap(raw, path):
+        raw = hide(raw)
+        if isinstance(raw, list):
+            if plan.is_async("iter", path):
+                rec = {"path": list(path), "started": 0, "closed": 0, "finalized": 0, "exhausted": 0,
+                       "next_calls": 0}
+                sources.append(rec)
+
+                async def agen():
+                    rec["started"] += 1
+                    try:
+                        for i, item in enumerate(raw):
+                            rec["next_calls"] += 1
+                            if plan.is_async("item", path + [i]):
+                                await sched.gate("it:" + pstr(path + [i]))
+                            if isinstance(item, Raise):
+                                raise Boom(item.message)
+                            yield item
+                        rec["exhausted"] += 1
+                    finally:
+                        rec["finalized"] += 1
+
+                return agen()
+            out = []
+            for i, item in enumerate(raw):
+                if plan.is_async("item", path + [i]) and not isinstance(item, list):
+                    out.append(_later(sched, "i:" + pstr(path + [i]), item, events, path + [i]))
+                else:
+                    out.append(item)
+            return out
+        return raw
+
+    def resolve(src, info, **kwargs):
+        args = {(k[3:] if out_names and k.startswith("py_") else k): v for k, v in kwargs.items()}
+        path = info.path.as_list()
+        log.append((path, f"{info.parent_type.name}.{info.field_name}", args))
+        events.append(("start", path))
+        raw = oracle.raw(src, info.parent_type.name, info.field_name, args)
+        if plan.is_async("field", path):
+            async def later():
+                try:
+                    await sched.gate("f:" + pstr(path))
+                except asyncio.CancelledError:
+                    events.append(("cancel", path))
+                    raise
+                events.append(("finish", path))
+                if isinstance(raw, Raise):
+                    raise Boom(raw.message)
+                return wrap(raw, path)
+
+            return later()
+        events.append(("finish", path))
+        if isinstance(raw, Raise):
+            raise Boom(raw.message)
+        return wrap(raw, path)
+
+    def is_type_of(name, value, info):
+        ok = (value.get("__tn") if isinstance(value, dict) else None) == name
+        path = info.path.as_list()
+        if plan.is_async("type", path + [name]):
+            async def later():
+                await sched.gate("is:" + pstr(path) + ":" + name)
+                return ok
+
+            return later()
+        return ok
+
+    resolve.is_type_of = is_type_of
+
+    def resolve_type(value, info, abstract_type):
+        name = value.get("__typename") if isinstance(value, dict) else None
+        path = info.path.as_list()
+        if plan.is_async("type", path):
+            async def later():
+                await sched.gate("t:" + pstr(path))
+                return name
+
+            return later()
+        return name
+
+    return resolve, resolve_type
+
+
+def _later(sched, label, value, events, path):
+    async def later():
+        await sched.gate(label)
+        if isinstance(value, Raise):
+            raise Boom(value.message)
+        return value
+
+    return later()
